@@ -36,11 +36,11 @@ func (d *Dumper) Sum() [16]byte { return md5.Sum(d.buf) }
 func (d *Dumper) U64(x uint64) {
 	d.buf = binary.LittleEndian.AppendUint64(d.buf, x)
 }
-func (d *Dumper) Int(x int)       { d.U64(uint64(int64(x))) }
-func (d *Dumper) F64(x float64)   { d.U64(math.Float64bits(x)) }
-func (d *Dumper) Str(s string)    { d.Int(len(s)); d.buf = append(d.buf, s...) }
-func (d *Dumper) Tag(b byte)      { d.buf = append(d.buf, b) }
-func (d *Dumper) Value(v any)     { d.dump(reflect.ValueOf(v)) }
+func (d *Dumper) Int(x int)     { d.U64(uint64(int64(x))) }
+func (d *Dumper) F64(x float64) { d.U64(math.Float64bits(x)) }
+func (d *Dumper) Str(s string)  { d.Int(len(s)); d.buf = append(d.buf, s...) }
+func (d *Dumper) Tag(b byte)    { d.buf = append(d.buf, b) }
+func (d *Dumper) Value(v any)   { d.dump(reflect.ValueOf(v)) }
 func (d *Dumper) Floats(xs []float64) {
 	d.Int(len(xs))
 	for _, x := range xs {
